@@ -2421,6 +2421,12 @@ func isNamedFuncSrc(t *itype) bool {
 	return isFuncSrc(t) && t.node.anc.kind == funcDecl
 }
 
+// isNamedFunc tells if n denotes a declared function used as a value. The symbol of
+// n is checked too, as the node of a function type can be changed by a return statement.
+func isNamedFunc(n *node) bool {
+	return isNamedFuncSrc(n.typ) || isFuncSrc(n.typ) && n.sym != nil && n.sym.kind == funcSym
+}
+
 func isFuncSrc(t *itype) bool {
 	return t.cat == funcT || (t.cat == linkedT && isFuncSrc(t.val))
 }
